@@ -1240,7 +1240,7 @@ func init() {
 		ID: "C08", Level: "exploration",
 		Rule: "readers: three exhaustively enumerated input families fed to the reader of their format (and across formats, and through the extension-dispatching opener): (1) all words of length <=L over a per-format alphabet of 12-13 lexemes, (2) the full single-mutation ball around every corpus document (every prefix, every single-byte deletion, every single-byte replacement by each of 12 bytes, every line-boundary splice of two same-format documents), (3) structured binary variations (STL GSI fields, DFC/DSC/CCT strings, every byte value at TTI text positions and header bytes, diacritic-led byte pairs; TS families contributed by the teletext encoder); writers: a nil-lattice of the public types explored within B deviations (every optional pointer/map independently present, nil or odd; 11 text atoms; 5 time atoms) to all five writers (TTML x 3 indents). Oracle: no panic (recover at the public entry point; a panic inside the third-party demuxer is excluded) and steps executed in package astisub <= 50000 + 400*len(input) (statement-level step counter of the instrumented build; no wall-clock oracle), also on scaled inputs of 2^k cues; distinct = (reader, input bytes) / (writer, lattice point)",
 		Scope: map[core.Tier]string{
-			core.Quick:    "token words L<=5 (cross-format L<=3); mutation ball around all corpus documents; STL structured families; scaled inputs up to 4096 cues and, inside one cue, up to 4096 lines / tagged runs / header lines; teletext page x PID option values (17 x 11) on every sample stream; writer lattice B=2; every string field of the metadata at 22 lengths (0..1024 bytes, around 8/16/32/64/576) in ASCII and two-byte characters; plain lists of 255..100001 cues (12 counts around digit-count and power-of-two boundaries) to every writer",
+			core.Quick:    "token words L<=5 (cross-format L<=3); mutation ball around all corpus documents; STL structured families; scaled inputs up to 4096 cues and, inside one cue, up to 4096 lines / tagged runs / header lines; teletext page x PID option values (17 x 11) on every sample stream; writer lattice B=2; every string field of the metadata at 22 lengths (0..1024 bytes, around 8/16/32/64/576) in ASCII and two-byte characters; plain lists of 255..100001 cues (12 counts around digit-count and power-of-two boundaries) to every writer; numeric boundary product (every number slot of a template per text format x small values, powers of two and ten, thresholds B*r/S +-1 for B in {2^31,2^32,2^53,2^63,2^64}, S in {1,10^3,10^6,10^9,60x10^9,3600x10^9}, r the frame / tick rates, whole and with 3 fractions); scaled documents also with CR LF and CR line ends",
 			core.Thorough: "token words L<=6 (cross-format L<=4); writer lattice B=3; plain lists up to 1000000 cues",
 		},
 		Assumptions: []string{"Go toolchain and standard library", "steps inside dependencies (bufio, encoding/xml, x/net/html, astits) are not counted: their loops are bounded by the input length", "instrumented build = plain build with inert hooks (validated in setup)"},
